@@ -477,6 +477,14 @@ fn edge_scenario(ctx: &Ctx, idx: u64) -> Report {
     report
 }
 
+pub fn faults_scenario_pub(ctx: &Ctx, idx: u64) -> Report {
+    faults_scenario(ctx, idx)
+}
+
+pub fn chain_scenario_pub(ctx: &Ctx, idx: u64) -> Report {
+    chain_scenario(ctx, idx)
+}
+
 pub fn check(tier: Tier) -> Check {
     Check {
         id: "C04",
